@@ -20,7 +20,8 @@ CONSTANTS Obj,            \* object -> [id, uid, flat (uid without dashes), arch
           Dev_UidCollision,     \* F-11e  a variant whose UID is already used elsewhere in the forest is accepted
           BottomUp,             \* scope switch: children may be added to a variant that is not (yet) in the forest,
                                 \*   and the finished sub-tree attached afterwards
-          Dev_UidSubtreeUnchecked  \* F-11f  only the UID of the added variant is compared, not those of the sub-tree it brings
+          Dev_UidSubtreeUnchecked, \* F-11f  only the UID of the added variant is compared, not those of the sub-tree it brings
+          Dev_TopKeepsParent       \* F-11g  a top-level add leaves (and validates against) the variant's old parent link
 VARIABLES kids,           \* [container -> [key -> object]]  children dictionaries (key = id)
           par,            \* [object -> container or None]   parent back-pointers
           out
@@ -57,24 +58,26 @@ UidFree(o) == IF BottomUp
               THEN LET forest == DescOf(ROOT, 4) \ ({o} \cup DescOf(o, 4))
                    IN  \A r \in Sub(o) : \A q \in forest : Obj[q].uid # Obj[r].uid
               ELSE \A q \in Objs : (Obj[q].uid = Obj[o].uid /\ q # o) => ~IsFiled(q)
+\* the parent link the add creates (top level: none)
+NewPar(c, o) == IF Dev_TopKeepsParent /\ c = ROOT THEN par ELSE [par EXCEPT ![o] = IF c = ROOT THEN None ELSE c]
 AddOk(c, o) ==
-  LET p1 == IF c # ROOT THEN [par EXCEPT ![o] = c] ELSE par      \* the parent link the add would create
+  LET p1 == NewPar(c, o)
   IN  /\ ValidObj(o, p1, kids)
       /\ (Dev_UidCollision \/ UidFree(o))                         \* UIDs stay unique in the forest
       /\ (c # ROOT => o \notin Anc(c, p1, N))                     \* not its own ancestor
       /\ (Obj[o].id \in DOMAIN kids[c] => kids[c][Obj[o].id] = o) \* id not taken by another variant
 Add(c, o) ==
-  LET p1 == IF c # ROOT THEN [par EXCEPT ![o] = c] ELSE par
+  LET p1 == NewPar(c, o)
   IN IF AddOk(c, o)
      THEN /\ kids' = [kids EXCEPT ![c] = [key \in DOMAIN kids[c] \cup {Obj[o].id} |->
                                             IF key = Obj[o].id THEN o ELSE kids[c][key]]]
           /\ par' = p1 /\ out' = "ok"
      ELSE /\ kids' = kids /\ out' = "ValueError"
           /\ par' = IF Dev_ParentSetFirst THEN p1 ELSE par
-\* scope of the property: a variant object that is already filed is only re-added to the
-\* same container (duplicate) or below itself (ancestor attempt)
+\* scope of the property: a variant object that is already filed is re-added to the same container (duplicate), below
+\* itself (ancestor attempt) or at the top level (a child offered as a top-level variant: misaligned there, refused)
 Filed(o) == \E c \in Cont : o \in Range(kids[c])
-InScope(c, o) == Filed(o) => (o \in Range(kids[c]) \/ (c # ROOT /\ o \in Anc(c, par, N)))
+InScope(c, o) == Filed(o) => (o \in Range(kids[c]) \/ (c # ROOT /\ o \in Anc(c, par, N)) \/ c = ROOT)
 \* dashed top-level UIDs only on childless variants; no container that is not itself filed
 Attachable(c) == c = ROOT \/ (c # ROOT /\ (BottomUp \/ Filed(c)) /\ (par[c] = None => Len(Obj[c].uid) = 1))
 Next == \E c \in Cont, o \in Objs : InScope(c, o) /\ Attachable(c) /\ Add(c, o)
